@@ -114,7 +114,7 @@ def is_found(oc):
     return False
 
 
-HARD_PREFIXES = ("enoent:", "eisdir:", "eacces:", "emfile:", "eio_open:", "enomem_open:", "eio_read:", "bad_utf8:", "exists_false:",
+HARD_PREFIXES = ("enoent:", "eisdir:", "eacces:", "emfile:", "enfile:", "eperm:", "eloop:", "eio_open:", "enomem_open:", "eio_read:", "bad_utf8:", "exists_false:",
                  "prog_absent:", "prog_eacces:", "fork_enomem:", "fork_eagain:", "rc1_", "rc2_", "rc127", "rcN_", "killed_", "not_elf:", "empty_file:",
                  "truncated_elf:", "D:malformed", "D:empty_doc", "D:scalar_doc", "D:list_doc", "D:macro_file_")
 
@@ -157,7 +157,7 @@ def env_faults(rng, events, op, files, outcome, rule_rel="rule.yaml", input_rel=
                 continue
             seen.add(p)
             role = "rule" if p == rule_rel else ("macrofile" if p in macro_files else "input")
-            for kind in ("eacces", "emfile", "eio_open", "enomem_open", "eio_read"):
+            for kind in ("eacces", "emfile", "enfile", "eperm", "eloop", "eio_open", "enomem_open", "eio_read"):
                 out.append({"kind": kind, "target": p, "label": f"{kind}:{role}"})
             out.append({"kind": "remove", "target": p, "label": f"enoent:{role}"})
             out.append({"kind": "mkdir_in_place", "target": p, "label": f"eisdir:{role}"})
@@ -185,6 +185,7 @@ def env_faults(rng, events, op, files, outcome, rule_rel="rule.yaml", input_rel=
             out.append({"kind": "killed", "stdout": "torn", "tear": rng.random(), "line_boundary": True, "label": "killed_torn_lineboundary:objdump"})
             out.append({"kind": "killed", "stdout": "none", "label": "killed_nostdout:objdump"})
             out.append({"kind": "killed", "stdout": "full", "label": "killed_fullstdout:objdump"})
+            out.append({"kind": "killed", "stdout": "torn", "tear": rng.random(), "signal": rng.choice(["SEGV", "TERM", "ABRT", "BUS"]), "label": "killed_othersignal_torn:objdump"})
             # real peer failures: the binary is not something objdump accepts
             inp = input_rel
             if inp in files:
@@ -234,8 +235,12 @@ def run_one(index, seed, runner, tier, opts):
         counters["discarded_nobuild"] += 1
         return {"evals": 0, "counters": counters, "distinct": [], "violations": [], "digest": "nobuild", "sample": None}
     files, op, doc, mfiles, info = wl
+    # a share of the workloads runs with the package logger at DEBUG / INFO (library entry: the embedding
+    # application configured logging; the CLI has its own --debug)
+    lopts = {"log_level": rng.choice([None, None, None, "DEBUG", "INFO"])}
+    info["log_level"] = lopts["log_level"]
     runner.materialise(files)
-    ctl = runner.run([op], seed)
+    ctl = runner.run([op], seed, lopts)
     vtime += ctl["vtime"]
     digests.append(util.digest(ctl["events"]))
     counters["seam_escapes"] += len(ctl["escapes"])
@@ -254,7 +259,7 @@ def run_one(index, seed, runner, tier, opts):
     for f in faults:
         fop = copy.deepcopy(op)
         fop["faults"] = [f]
-        res = runner.run([fop], seed)
+        res = runner.run([fop], seed, lopts)
         evals += 1
         vtime += res["vtime"]
         digests.append(util.digest(res["events"]))
@@ -429,14 +434,15 @@ def evaluate(case, runner):
         if op["op"] == "write":
             runner.apply_write(op)
     no_control = bool((case.get("extra") or {}).get("no_control"))
+    lopts = {"log_level": ((case.get("extra") or {}).get("info") or {}).get("log_level")}
     if not no_control:
         ctl = copy.deepcopy(fop)
         ctl["faults"] = []
-        res = runner.run([ctl], 0)
+        res = runner.run([ctl], 0, lopts)
         if not is_found(res["outcomes"][-1]):
             return []
     runner.materialise(files)
-    res = runner.run(case["ops"], 0)
+    res = runner.run(case["ops"], 0, lopts)
     oc = res["outcomes"][-1]
     if not res["fired"][-1]:
         return []
